@@ -49,8 +49,9 @@ class Rig:
         self.err_obj = None
         g = {"BODY": self._body, "CB": self._cb}
         self.defaults = {}
-        for n in sig["dflt"]:
-            self.defaults[n] = Obj("dflt_" + n)
+        for i, n in enumerate(sig["dflt"]):
+            # every other default is None (the most common default, and a value implementations like to test for)
+            self.defaults[n] = None if i % 2 else Obj("dflt_" + n)
             g["D_" + n] = self.defaults[n]
         src = ["def f(%s):\n    return BODY(locals())\n" % sigmodel.render_params(sig)]
         for role in ("pre", "cap", "post", "errpre", "errpost"):
